@@ -20,7 +20,7 @@ LIMITS = (None, None, None, 0, 1, 2, 3, 4, 6, 8)
 
 PLAIN_OPS = ("succ", "bfs", "dfs", "min", "attr", "target", "block_plain")
 SKIP_OPS = ("skip", "skiprem", "minskip")
-ATTR_OPS = ("cands", "seeds", "sets", "allseeds", "expseeds")
+ATTR_OPS = ("cands", "seeds", "sets", "allseeds", "expseeds", "expsets", "expcands")
 STRUCT_OPS = ("block", "scc", "build")
 AUX_OPS = ("reclaim", "pickle")
 
@@ -181,6 +181,10 @@ class History:
             return {i: c(sd.node_attractor_seeds, i, compute=True) for i in ids}
         if op == "expseeds":
             return c(sd.expanded_attractor_seeds)
+        if op == "expsets":
+            return {k: len(v) for k, v in c(sd.expanded_attractor_sets).items()}
+        if op == "expcands":
+            return c(sd.expanded_attractor_candidates)
         if op == "reclaim":
             return c(sd.reclaim_node_data)
         if op == "pickle":
